@@ -306,6 +306,28 @@ Proof.
   exact (equal_keys_collision hash hl Hlen Hpos K kb H sid _ _ _ k HK (letters_dir_differ r p1 p2) Hn E1 E2).
 Qed.
 
+(* ---- per kex algorithm: the digest length _compute_key works with is positive, so C04_rfc applies --- *)
+Lemma kex_hashes_positive_ok : kex_hashes_positive = true.
+Proof. vm_compute. reflexivity. Qed.
+
+Theorem rfc_per_kex name declared :
+  In (name, declared) gen_kex_hashes ->
+  let hlz := kex_hash_len declared in
+  1 <= hlz <= 64 /\
+  forall (hash : list Z -> list Z),
+    (forall m, length (hash m) = Z.to_nat hlz) ->
+    forall (K : Z) (kb H sid : list Z) (X n : Z) (i : nat),
+      add_mpint K = Ok kb -> 0 <= n -> n <= Z.of_nat (S i) * hlz ->
+      compute_key hash K H sid X n = Ok (firstn (Z.to_nat n) (rfc_upto hash (kb ++ H) X sid i)).
+Proof.
+  intros Hin hlz.
+  pose proof kex_hashes_positive_ok as P. unfold kex_hashes_positive in P.
+  rewrite forallb_forall in P. specialize (P _ Hin). cbn [snd] in P. fold hlz in P.
+  split; [lia|].
+  intros hash Hlen K kb H sid X n i HK Hn Hi.
+  apply (compute_key_rfc hash (Z.to_nat hlz) Hlen ltac:(lia) K kb H sid X n i HK Hn). lia.
+Qed.
+
 (* ---- non-vacuity material ---------------------------------------------------------------------- *)
 Lemma toy_hash_len hl m : length (toy_hash hl m) = hl.
 Proof.
